@@ -894,6 +894,54 @@ pub fn run(ctx: &Ctx) {
     if complete {
         ctx.note_exhaustive(format!("fd-table: every scenario of this worker's share ({} scenarios in total) x every index of its syscall sequence x {} plausible errno(s) per call plus every errno the code branches on (EAGAIN, EINPROGRESS, EINTR, EBUSY, EEXIST...); and, after every fault the operation recovers from, every later call failing as well ({} two-fault cases); {} cases on this worker", scn.len(), if all_errnos { "all" } else { "the first two" }, pairs, total));
     }
+    // thorough: any scenario, up to two faults at any index of the sequence, any assigned errno
+    if ctx.thorough() {
+        use proptest::prelude::*;
+        let names: Vec<String> = scn.iter().map(|(n, _)| n.to_string()).collect();
+        let errno = prop_oneof![3 => prop::sample::select(vec![libc::EINTR, libc::EAGAIN, libc::ENOMEM, libc::EMFILE, libc::ENFILE, libc::EIO, libc::EACCES, libc::ENOENT, libc::EEXIST, libc::EBUSY, libc::EINVAL, libc::EBADF, libc::ENOSPC, libc::EINPROGRESS, libc::EALREADY, libc::ECONNREFUSED, libc::ENOTDIR, libc::EISDIR, libc::ELOOP, libc::ENAMETOOLONG]), 1 => 1i32..=133];
+        let strat = (prop::sample::select(names), 0u32..48, errno.clone(), prop::option::weighted(0.5, (1u32..24, errno))).prop_map(|(scenario, j, e1, second)| FdCase { scenario, fault: Some((j, e1)), child_fault: None, after_exec: false, fault2: second.map(|(d, e2)| (j + d, e2)) });
+        ctx.run_prop_opts("fd-table-rand", ctx.cases(0, 2500), 40, strat, |c| {
+            // never force close/munmap/exit to fail without executing (that would manufacture a leak):
+            // such draws are judged as the fault-free run
+            check_case_guarded(&env, c)
+        });
+    }
     unsafe { libc::close(env.unix_listener_fd) };
     let _ = std::fs::remove_dir_all(&env.root);
+}
+
+/// `check_case` for drawn fault positions: the syscall sequence is not known in advance, so the
+/// faults are applied through rules that skip the calls that must never be faulted.
+fn check_case_guarded(env: &Env, c: &FdCase) -> CaseResult {
+    // a dry run of the same scenario under the first fault tells which calls the indexes hit
+    let scn = scenarios();
+    let Some((name, op)) = scn.iter().find(|(n, _)| *n == c.scenario) else {
+        return Err(Failure::new("harness|unknown scenario", c.scenario.clone()));
+    };
+    let mut rep = CaseReport::new();
+    let dry = run_case(env, name, *op, None, None, false, &None, &mut rep);
+    let _ = sc::verif::log_end();
+    sc::verif::clear_plan();
+    let dry = dry?;
+    reap();
+    let ok_at = |log: &[sc::verif::Call], idx: u32| log.get(idx as usize).map(|call| call.nr != sc::nr::CLOSE && !never_fault(call.nr)).unwrap_or(false);
+    let Some((j, e1)) = c.fault else { return Ok(rep) };
+    if !ok_at(&dry, j) {
+        rep.class("drawn-index-not-faultable");
+        return Ok(rep);
+    }
+    let mut rep1 = CaseReport::new();
+    let one = run_case(env, name, *op, Some((j, e1)), None, false, &None, &mut rep1);
+    let _ = sc::verif::log_end();
+    sc::verif::clear_plan();
+    let log1 = one?;
+    reap();
+    rep1.nontrivial_if(j >= 1);
+    rep1.class("parent-fault");
+    let Some((k, e2)) = c.fault2 else { return Ok(rep1) };
+    if !ok_at(&log1, k) {
+        return Ok(rep1);
+    }
+    let case2 = FdCase { scenario: c.scenario.clone(), fault: Some((j, e1)), child_fault: None, after_exec: false, fault2: Some((k, e2)) };
+    check_case(env, &case2)
 }
